@@ -96,6 +96,13 @@ def gen_accesses(c, r, aw_wb, ratio_n):
                 g.append(dict(adr=wide + r.randrange(max(1, ratio_n)), we=r.random() < 0.5, sel=full if r.random() < 0.6 else (r.getrandbits(wbb) or 1),
                               dat=r.getrandbits(c["wbw"]), cti=0, abort_after=None))
             if r.random() < 0.5:
+                # one CYC for the whole group; half of these masters tag beats as "incrementing burst, more to come" (CTI=2)
+                # whatever the direction of the next beat -- the bridge keeps its read cache across such beats, so a write
+                # between two reads of the cached word is the stale-cache scenario of the property
+                if r.random() < 0.5:
+                    for b in g[:-1]:
+                        b["cti"] = r.choice([2, 2, 0])
+                    g[-1]["cti"] = 7
                 groups.append(g)
             else:
                 groups += [[b] for b in g]
